@@ -41,7 +41,7 @@ WORKERS = {"quick": 1, "thorough": 8}
 
 def gen_cases(ctx):
     rng = ctx.rng
-    for i in range(ctx.scale(12000, 300000)):
+    for i in range(ctx.scale(12000, 1800000)):
         inst = gen.gen_instance(rng, None, max_jobs=rng.choice([2, 3, 4]), max_machines=rng.choice([2, 3, 4]))
         yield {"instance": inst, "seed": rng.randrange(2**31)}
 
